@@ -90,28 +90,97 @@ func notExistTests(fn *ssa.Function, e ssa.Value) (tests []*ssa.If, notIdx []int
 	return
 }
 
-// toleratesNotExist: every return that hands on error e is on the "not ErrNotExist" side of a
-// test of e (or e is never handed on).
+// toleratesNotExist: no return hands error e on along a path on which e has not been tested
+// for os.ErrNotExist (and found to be something else).  Edge-sensitive: a phi only carries e
+// along the incoming edges that really come from an untested region.
 func (p *Prog) toleratesNotExist(fn *ssa.Function, e ssa.Value) (bool, string) {
 	if e == nil {
 		return true, "error result dropped"
 	}
 	ei := errResultIndex(fn)
 	tests, notIdx := notExistTests(fn, e)
+	testedAt := func(b *ssa.BasicBlock) bool {
+		for i, t := range tests {
+			if edgeDominates(t.Block(), notIdx[i], b) {
+				return true
+			}
+		}
+		return false
+	}
+	testedEdge := func(pred, to *ssa.BasicBlock) bool {
+		if testedAt(pred) {
+			return true
+		}
+		for i, t := range tests {
+			if t.Block() == pred && pred.Succs[notIdx[i]] == to && pred.Succs[1-notIdx[i]] != to {
+				return true
+			}
+		}
+		return false
+	}
+	var untested func(v ssa.Value, at *ssa.BasicBlock, depth int) bool
+	untested = func(v ssa.Value, at *ssa.BasicBlock, depth int) bool {
+		if depth > 8 {
+			return true
+		}
+		if v == e {
+			return !testedAt(at)
+		}
+		switch x := v.(type) {
+		case *ssa.Phi:
+			for i, ed := range x.Edges {
+				pred := x.Block().Preds[i]
+				if ed == e {
+					if !testedEdge(pred, x.Block()) {
+						return true
+					}
+					continue
+				}
+				if derivesFromErr(ed, e, 0) && untested(ed, pred, depth+1) {
+					return true
+				}
+			}
+			return false
+		case *ssa.Call:
+			nm := calleeName(x.Common())
+			var args []ssa.Value
+			if nm == "fmt.Errorf" && len(x.Call.Args) > 1 {
+				args = variadicArgs(x.Call.Args[1])
+			}
+			if nm == "errors.Join" && len(x.Call.Args) > 0 {
+				args = variadicArgs(x.Call.Args[0])
+			}
+			for _, a := range args {
+				if a != nil && derivesFromErr(stripConv(a), e, 0) && untested(stripConv(a), x.Block(), depth+1) {
+					return true
+				}
+			}
+			return false
+		case *ssa.MakeInterface:
+			return untested(x.X, at, depth+1)
+		case *ssa.ChangeInterface:
+			return untested(x.X, at, depth+1)
+		case *ssa.UnOp:
+			if al, ok := x.X.(*ssa.Alloc); ok && x.Op == token.MUL {
+				for _, st := range allocStores(al) {
+					if derivesFromErr(st.Val, e, 0) && untested(st.Val, st.Block(), depth+1) {
+						return true
+					}
+				}
+			}
+			return false
+		}
+		return false
+	}
 	for _, rt := range returnsOf(fn) {
 		if ei < 0 || ei >= len(rt.Results) {
 			continue
 		}
-		if !derivesFromErr(returnOperand(rt, ei), e, 0) {
+		v := returnOperand(rt, ei)
+		if !derivesFromErr(v, e, 0) {
 			continue
 		}
-		ok := false
-		for i, t := range tests {
-			if edgeDominates(t.Block(), notIdx[i], rt.Block()) {
-				ok = true
-			}
-		}
-		if !ok {
+		if untested(v, rt.Block(), 0) {
 			return false, "the error is returned at " + p.posStr(rt.Pos()) + " without a preceding errors.Is(err, os.ErrNotExist) / os.IsNotExist test"
 		}
 	}
